@@ -60,6 +60,7 @@ impl RunCfg {
                 "guardr" => galloc::GUARD_RIGHT,
                 "fail" => galloc::FAIL,
                 "failtape" => galloc::FAIL_TAPE,
+                "failmmap" => galloc::FAIL_MMAP,
                 _ => galloc::SYS,
             },
             fail_k: v["failK"].as_u64().unwrap_or(u64::MAX) as usize,
@@ -142,6 +143,9 @@ fn exec_once<C: CellType, X: Executable<C>>(
             r
         }));
         galloc::disarm();
+        // (also after a panic: the counters keep their values until the allocator is armed again)
+        allocs = galloc::armed_count();
+        alloc_failed = galloc::failed_count();
         match r {
             Ok(Ok(s)) => s,
             Ok(Err(e)) => format!("err:{}", err_str(&e)),
